@@ -24,7 +24,8 @@ def run(R):
               "distinct = distinct (api, lengths, content kind)")
     R.assumptions += ["TLC/SANY", "the list of entry points in the recorder is the coverage of 'every function that takes bytes'",
                       "panic texts are classified by their documented prefixes in the recorder"]
-    labs = ["default"] if R.tier == "quick" else ["default", "purego", "force32bit"]
+    # length checks live in backend files too (scalar_u32.go, field_u32.go): the 32-bit build is part of every run
+    labs = ["default", "force32bit"] if R.tier == "quick" else ["default", "noavx2", "purego", "force32bit"]
     recs = record_configs(R, labs)
     for lab, files in recs.items():
         R.count_events(files, key=lambda e: e.get("api", "?") + ":" + e.get("outcome", "?"))
